@@ -22,7 +22,10 @@ class Prop(RefProp):
         cases = []
         for _ in range(n):
             case = gen_pipes.gen_case(rng, self.profile)
-            if rng.random() < 0.06:
+            r = rng.random()
+            if r < 0.06:
                 gen_pipes.recursive_call(rng, case)
+            elif r < 0.11:
+                gen_pipes.ctx_config_call(rng, case)
             cases.append(case)
         return cases
